@@ -154,6 +154,26 @@ template <int B> struct Blk {
                 } else {
                     Dense Bm = bmat(amg, n, &l);
                     for (auto &row : Bm) for (auto &v : row) if (v.poison) { r.fail(what + "apply left an entry of x unwritten"); break; }
+                    // scaling oracle (C02 "B(2^k A) = 2^-k B(A)", C02e): same parameters on 4 A: B(4 A) = B(A) / 4 exactly, PROVIDED the two
+                    // hierarchies have the same transfer operators (the hypothesis of C02b.apply_scale).  At block value types math::norm is the
+                    // Frobenius norm and passes through the stand-in square root of Q (floor(sqrt(q 4^32))/2^32, NOT homogeneous:
+                    // rsqrt(16 q) != 4 rsqrt(q)), which binary64 does not share for powers of two; therefore SPAI-0 (M_i = num / sum norm(a_ij)^2)
+                    // and Chebyshev (Gershgorin bound from block norms) are excluded here (the scalar harness h_cycle covers them); run for ILU(0), ILUP, ILU(k) (rk 3, 5, 6) and a strength-of-connection decision that flips is a skipped case, not a failure.
+                    if (r.ok && (rp.rk == 3 || rp.rk == 5 || rp.rk == 6)) {
+                        auto A4 = h.A; for (auto &v : A4.val) v = v * Q(4);
+                        const char *bad = nullptr; bool same = true;
+                        try {
+                            auto As4 = A4.crs();
+                            AMG amg4(amgcl::adapter::block_matrix<val>(*As4), prm);
+                            auto &L1 = amgcl_verif::access::levels(amg); auto &L4 = amgcl_verif::access::levels(amg4);
+                            same = L1.size() == L4.size();
+                            if (same) { auto i1 = L1.begin(); auto i4 = L4.begin(); for (; same && i1 != L1.end(); ++i1, ++i4) {
+                                if (bool(i1->P) != bool(i4->P) || bool(i1->R) != bool(i4->R)) same = false;
+                                else if (i1->P && i1->R) same = i1->P->ncols == i4->P->ncols && dense_eq(bdense<B>(*i1->P), bdense<B>(*i4->P)) && dense_eq(bdense<B>(*i1->R), bdense<B>(*i4->R)); } }
+                            if (same) { Dense B4 = bmat(amg4, n, nullptr); for (long i = 0; !bad && i < n; ++i) for (long j = 0; j < n; ++j) if (B4[i][j].poison || (B4[i][j] * Q(4)).v != Bm[i][j].v) { bad = "scaling: B(4 A) != B(A) / 4 although the hierarchy of 4 A has the transfer operators of the hierarchy of A"; break; } }
+                        } catch (const std::exception &) { bad = "scaling: the hierarchy of A is built but the construction for 4 A throws"; }
+                        if (bad) r.fail(what + bad); else r.tag(same ? "scale4" : "scale4-skipped-transfer-operators-differ");
+                    }
                     if (r.ok && symcfg && t.pre_cycles >= 1) {
                         Dense Ad = dense(h.A);
                         auto bmat_of = [&](const BHdr &hh, const Tail &tt, size_t &nlv) { auto prm1 = params(hh, rp, tt); AMG amg1(amgcl::adapter::block_matrix<val>(*As), prm1); nlv = amgcl_verif::access::levels(amg1).size(); return bmat(amg1, n, nullptr); };
